@@ -334,6 +334,7 @@ type runCfg struct {
 	Cursor  string `json:"cursor"` // "" or "resume:<index of the delivered block whose cursor is used>"
 	Label   string `json:"label"`
 	Final   bool   `json:"finalonly"` // final_blocks_only request; the source then emits bare irreversible steps
+	Out     string `json:"outmod"`    // output module ("out" unless stated)
 }
 
 type respRec struct {
@@ -533,7 +534,10 @@ func runTier1(env *sysEnv, cfg runCfg, cursor string, traceSched bool) (obs runO
 	svc := service.TestNewService(rc, lib, func(ctx context.Context, h bstream.Handler, start int64, stop uint64, _ string, _ bool, _ bool, _ *zap.Logger, _ ...bsstream.Option) (service.Streamable, error) {
 		return &linearStream{h: h, start: uint64(start), end: stop, bareFinal: cfg.Final, onBlock: func(p *pipeline.Pipeline, num uint64, id string) { lastPipe = p }}, nil
 	})
-	req := &pbsubstreamsrpc.Request{StartBlockNum: cfg.Start, StopBlockNum: cfg.Stop, ProductionMode: cfg.Prod, OutputModule: "out", Modules: env.mods, StartCursor: cursor, FinalBlocksOnly: cfg.Final}
+	if cfg.Out == "" {
+		cfg.Out = "out"
+	}
+	req := &pbsubstreamsrpc.Request{StartBlockNum: cfg.Start, StopBlockNum: cfg.Stop, ProductionMode: cfg.Prod, OutputModule: cfg.Out, Modules: env.mods, StartCursor: cursor, FinalBlocksOnly: cfg.Final}
 	var mu sync.Mutex
 	collect := func(resp substreams.ResponseFromAnyTier) error {
 		r, ok := resp.(*pbsubstreamsrpc.Response)
@@ -569,14 +573,44 @@ func runTier1(env *sysEnv, cfg runCfg, cursor string, traceSched bool) (obs runO
 	}
 	// scheduler hooks: skip the 4 s ramp-up, trace every Update
 	schedMu.Lock()
-	orchestrator.VerifOnScheduler = func(s *scheduler.Scheduler) { s.WorkerPool.VerifSkipRampup() }
+	rows := func(s *scheduler.Scheduler) []string {
+		out := []string{}
+		for _, l := range strings.Split(strings.TrimSpace(s.Stages.StatesString()), "\n") {
+			if i := strings.Index(l, ":"); i >= 0 {
+				out = append(out, l[i+1:])
+			}
+		}
+		return out
+	}
+	walkerOf := func(s *scheduler.Scheduler) map[string]any {
+		if s.ExecOutWalker == nil {
+			return map[string]any{"has": false, "first": 0, "cur": 0, "last": 0, "working": false}
+		}
+		f, c, l := s.ExecOutWalker.Progress()
+		return map[string]any{"has": true, "first": f, "cur": c, "last": l, "working": s.ExecOutWalker.IsWorking()}
+	}
+	orchestrator.VerifOnScheduler = func(s *scheduler.Scheduler) {
+		s.WorkerPool.VerifSkipRampup()
+		if traceSched {
+			obs.Sched = append(obs.Sched, map[string]any{"ev": "sinit", "internals": s.Stages.VerifInternals(), "rows": rows(s), "walker": walkerOf(s),
+				"workers": len(s.WorkerPool.VerifStates())})
+		}
+	}
 	if traceSched {
 		seq := 0
 		scheduler.VerifTrace = func(s *scheduler.Scheduler, msg loop.Msg) {
 			seq++
 			o, st := s.VerifFlags()
-			obs.Sched = append(obs.Sched, map[string]any{"seq": seq, "msg": fmt.Sprintf("%T", msg), "detail": msgDetail(msg), "matrix": s.Stages.StatesString(),
-				"workers": s.WorkerPool.VerifStates(), "outDone": o, "storesDone": st})
+			busy := 0
+			for _, w := range s.WorkerPool.VerifStates() {
+				if w == 1 {
+					busy++
+				}
+			}
+			seg, stage := msgUnit(msg)
+			in := s.Stages.VerifInternals()
+			obs.Sched = append(obs.Sched, map[string]any{"ev": "supd", "seq": seq, "t": msgType(msg), "seg": seg, "stage": stage, "rows": rows(s),
+				"segDone": in.SegmentCompleted, "shadowable": in.ShadowableSegment, "busy": busy, "walker": walkerOf(s), "outDone": o, "storesDone": st})
 		}
 	} else {
 		scheduler.VerifTrace = nil
@@ -603,6 +637,28 @@ func runTier1(env *sysEnv, cfg runCfg, cursor string, traceSched bool) (obs runO
 	gate.mu.Unlock()
 	obs.Files = projectFiles(env, listFiles(env.dir))
 	return
+}
+
+func msgType(msg loop.Msg) string {
+	t := fmt.Sprintf("%T", msg)
+	if i := strings.LastIndex(t, ".Msg"); i >= 0 {
+		return t[i+4:]
+	}
+	return t
+}
+
+func msgUnit(msg loop.Msg) (int, int) {
+	switch m := msg.(type) {
+	case work.MsgJobSucceeded:
+		return m.Unit.Segment, m.Unit.Stage
+	case work.MsgJobFailed:
+		return m.Unit.Segment, m.Unit.Stage
+	case stage.MsgMergeFinished:
+		return m.Unit.Segment, m.Unit.Stage
+	case stage.MsgMergeFailed:
+		return m.Unit.Segment, m.Unit.Stage
+	}
+	return 0, 0
 }
 
 func msgDetail(msg loop.Msg) string {
@@ -696,7 +752,7 @@ func runSystem(a *args) error {
 			cfg := randCfg(r, prog, seg)
 			cfg.Prod = true
 			cfg.Label = "subsets/full"
-			emitRun(a, env, cfg, "", false)
+			emitRun(a, env, cfg, "", true)
 			captureFiles(env)
 			all := listFiles(env.dir)
 			for f := range env.seen {
@@ -736,9 +792,11 @@ func runSystem(a *args) error {
 				if r.Intn(2) == 0 {
 					c2.Order = r.Int63n(1<<30) + 1
 				}
-				emitRun(a, env, c2, "", false)
+				emitRun(a, env, c2, "", true)
 				all = unionFiles(all, listFiles(env.dir))
 			}
+		case "schedcex":
+			runSchedCex(a, r, root, i)
 		case "forks":
 			for k := 0; k < 3; k++ {
 				runForks(a, r, env, seg)
@@ -850,6 +908,9 @@ func projectFiles(env *sysEnv, files []string) []fileRec {
 }
 
 func emitRun(a *args, env *sysEnv, cfg runCfg, cursor string, traceSched bool) runObs {
+	if cfg.Out == "" {
+		cfg.Out = "out"
+	}
 	before := projectFiles(env, listFiles(env.dir))
 	obs := runTier1(env, cfg, cursor, traceSched)
 	nd := 0
@@ -858,7 +919,16 @@ func emitRun(a *args, env *sysEnv, cfg runCfg, cursor string, traceSched bool) r
 			nd++
 		}
 	}
+	sched := obs.Sched
+	obs.Sched = []map[string]any{}
 	a.emitNT(map[string]any{"ev": "run", "cfg": cfg, "obs": obs, "filesBefore": before, "failAt": -1}, nd > 1)
+	for _, e := range sched { // the scheduler trace of the run, one record per Scheduler.Update (hook)
+		e["label"] = cfg.Label
+		a.emit(e)
+	}
+	if len(sched) > 0 {
+		a.emit(map[string]any{"ev": "send", "err": obs.Err, "panic": obs.Panic})
+	}
 	return obs
 }
 
@@ -1120,3 +1190,37 @@ func runForks(a *args, r *rand.Rand, env *sysEnv, seg uint64) {
 type streamFunc func(ctx context.Context) error
 
 func (f streamFunc) Run(ctx context.Context) error { return f(ctx) }
+
+
+// runSchedCex replays the design-level counterexample TLC finds in MCSched_3x4 (JobInputsComplete): two store stages
+// (st2 reads st1), a cache that holds st1's snapshots for the first two segments and nothing of st2 (left by an earlier
+// request for a mapper that only reads st1), then a production request whose start block lies in the third segment.
+func runSchedCex(a *args, r *rand.Rand, root string, i int) {
+	body := func(kind string) vbody {
+		return vbody{Kind: kind, Emit: always(), FailAt: -1, Terms: []vterm{}, Ops: []vop{}, Keys: []vkey{}}
+	}
+	src := sysMod{Name: "m_src", Kind: "map", Inputs: []ainput{{K: "source", V: blockType}}, Filter: []any{}, Body: body("map")}
+	src.Body.Terms = []vterm{{T: "num", C: 1}, {T: "const", C: 1}}
+	st1 := sysMod{Name: "st1", Kind: "store", Inputs: []ainput{{K: "map", V: "m_src"}}, Filter: []any{}, Body: body("store")}
+	st1.Body.Pol, st1.Body.VT = "add", "int64"
+	st1.Body.Ops = []vop{{Op: "w", Base: 0, Step: 1, Val: []vterm{{T: "in", I: 0, C: 1}}, When: always()}}
+	st2 := sysMod{Name: "st2", Kind: "store", Inputs: []ainput{{K: "map", V: "m_src"}, {K: "store", V: "st1", Mode: "get"}}, Filter: []any{}, Body: body("store")}
+	st2.Body.Pol, st2.Body.VT = "add", "int64"
+	st2.Body.Ops = []vop{{Op: "w", Base: 1, Step: 1, Val: []vterm{{T: "get", I: 1, C: 1, Key: "a", How: "last", Num: true}, {T: "const", C: 1}}, When: always()}}
+	out1 := sysMod{Name: "out1", Kind: "map", Inputs: []ainput{{K: "map", V: "m_src"}, {K: "store", V: "st1", Mode: "get"}}, Filter: []any{}, Body: body("map")}
+	out1.Body.Terms = []vterm{{T: "in", I: 0, C: 1}, {T: "get", I: 1, C: 10, Key: "b", How: "last", Num: true}}
+	out := sysMod{Name: "out", Kind: "map", Inputs: []ainput{{K: "map", V: "m_src"}, {K: "store", V: "st2", Mode: "get"}}, Filter: []any{}, Body: body("map")}
+	out.Body.Terms = []vterm{{T: "in", I: 0, C: 1}, {T: "get", I: 1, C: 10, Key: "b", How: "last", Num: true}}
+	prog := sysProg{src, st1, st2, out1, out}
+	seg := uint64(2 + r.Intn(3))
+	env := newSysEnv(filepath.Join(root, fmt.Sprintf("cex%d", i)), prog)
+	os.MkdirAll(env.dir, 0755)
+	a.emit(map[string]any{"ev": "prog", "prog": prog, "seg": seg})
+	// request 1: mapper out1 over the first two segments: leaves st1's snapshots at the end of segment 0 and 1
+	c1 := runCfg{Prod: true, Start: 0, Stop: 2 * seg, LibOK: true, Lib: 5 * seg, Seg: seg, Workers: 2, Label: "schedcex/prepare", Out: "out1"}
+	emitRun(a, env, c1, "", true)
+	// request 2: mapper out, start in the third segment, several workers, random completion order
+	c2 := runCfg{Prod: true, Start: int64(2*seg) + int64(r.Intn(int(seg))), Stop: 4 * seg, LibOK: true, Lib: 5 * seg, Seg: seg, Workers: 3, Order: r.Int63n(1<<30) + 1, Label: "schedcex/request", Out: "out"}
+	emitRun(a, env, c2, "", true)
+	os.RemoveAll(env.dir)
+}
